@@ -318,3 +318,210 @@ Proof.
   unfold reduce_uncommitted_size. destruct (negb (is_leader r)); [apply keeps_refl|].
   destruct (_ || _); [apply keeps_refl|]. destruct (_ <? _); reflexivity.
 Qed.
+
+(* ------------------------------------------------------------------ *)
+(* RawNode entry points *)
+
+Lemma lift2_step_tv n m n' c :
+  lift2 n (step (rn_raft n) m) = Ok (n', c) -> vote_step m (rn_raft n) (rn_raft n').
+Proof.
+  unfold lift2. intros H. ib H y Hy. injection H as <- _. destruct y as [r1 c1]. cbn.
+  eapply step_vote_step; exact Hy.
+Qed.
+
+Theorem rn_step_vote_step n m n' c :
+  rn_step n m = Ok (n', c) -> vote_step m (rn_raft n) (rn_raft n').
+Proof.
+  unfold rn_step. intros H.
+  dtop H; [injection H as <- _; apply tv_plain_vote_step, tv_plain_refl|].
+  dtop H; [eapply lift2_step_tv; exact H|injection H as <- _; apply tv_plain_vote_step, tv_plain_refl].
+Qed.
+
+Theorem rn_tick_tv n n' b : rn_tick n = Ok (n', b) -> tv_plain (rn_raft n) (rn_raft n').
+Proof.
+  unfold rn_tick. intros H. ib H y Hy. injection H as <- _. destruct y as [r1 b1]. cbn.
+  eapply tick_tv_plain; exact Hy.
+Qed.
+
+Lemma lift2_step_plain n m n' c :
+  m_type m <> MsgRequestVote -> lift2 n (step (rn_raft n) m) = Ok (n', c) ->
+  tv_plain (rn_raft n) (rn_raft n').
+Proof. intros Hn H. eapply vote_step_tv_plain; [exact Hn|]. eapply lift2_step_tv; exact H. Qed.
+
+Theorem rn_campaign_tv n n' c : rn_campaign n = Ok (n', c) -> tv_plain (rn_raft n) (rn_raft n').
+Proof. apply lift2_step_plain. discriminate. Qed.
+
+Theorem rn_propose_tv n ctx d n' c :
+  rn_propose n ctx d = Ok (n', c) -> tv_plain (rn_raft n) (rn_raft n').
+Proof. apply lift2_step_plain. discriminate. Qed.
+
+Theorem rn_propose_conf_change_tv n ctx d ty ci n' c :
+  rn_propose_conf_change n ctx d ty ci = Ok (n', c) -> tv_plain (rn_raft n) (rn_raft n').
+Proof. apply lift2_step_plain. discriminate. Qed.
+
+Theorem rn_apply_conf_change_tv n cc n' ocs :
+  rn_apply_conf_change n cc = Ok (n', ocs) -> tv_plain (rn_raft n) (rn_raft n').
+Proof.
+  unfold rn_apply_conf_change. intros H. ib H y Hy. injection H as <- _. destruct y as [r1 o1]. cbn.
+  apply keeps_tv_plain. eapply raft_apply_conf_change_keeps; exact Hy.
+Qed.
+
+Theorem rn_ping_tv n n' : rn_ping n = Ok n' -> tv_plain (rn_raft n) (rn_raft n').
+Proof.
+  unfold rn_ping, lift. intros H. ib H y Hy. injection H as <-. cbn.
+  apply keeps_tv_plain. eapply ping_keeps; exact Hy.
+Qed.
+
+Lemma gen_light_ready_tv n n' lr :
+  gen_light_ready n = Ok (n', lr) -> tv_plain (rn_raft n) (rn_raft n').
+Proof.
+  unfold gen_light_ready. intros H. ib H oe Hoe. ib H csi Hcsi. injection H as <- _. cbn.
+  apply keeps_tv_plain. eapply keeps_trans; [apply reduce_uncommitted_size_keeps|reflexivity].
+Qed.
+
+Theorem rn_ready_tv n n' rd : rn_ready n = Ok (n', rd) -> tv_plain (rn_raft n) (rn_raft n').
+Proof.
+  unfold rn_ready. intros H. ib H recs Hrecs. ib H x Hx. destruct x as [[[snap csi] rec_snap] ms2].
+  ib H y Hy. destruct y as [n2 light]. injection H as <- _. cbn.
+  apply gen_light_ready_tv in Hy. cbn in Hy. eapply tv_plain_trans; [|exact Hy]. tvs.
+Qed.
+
+Lemma commit_ready_tv n rd n' : commit_ready n rd = Ok n' -> tv_plain (rn_raft n) (rn_raft n').
+Proof.
+  unfold commit_ready. intros H.
+  set (n1 := match rd_ss rd with Some ss => n <| rn_prev_ss := ss |> | None => n end) in *.
+  set (n2 := match rd_hs rd with Some hs => n1 <| rn_prev_hs := hs |> | None => n1 end) in *.
+  assert (E : rn_raft n2 = rn_raft n) by (unfold n2, n1; destruct (rd_hs rd), (rd_ss rd); reflexivity).
+  destruct (rn_records n2); [discriminate|].
+  dtop H; [discriminate|]. ib H l1 H1. ib H l2 H2. injection H as <-. cbn. rewrite E. tvs.
+Qed.
+
+Theorem rn_on_persist_ready_tv n k n' :
+  rn_on_persist_ready n k = Ok n' -> tv_plain (rn_raft n) (rn_raft n').
+Proof.
+  unfold rn_on_persist_ready. intros H.
+  destruct (fold_records (rn_records n) k 0 0 0) as [[[recs index] t] snap_index].
+  ib H r1 H1. ib H r2 H2. injection H as <-. cbn in *.
+  assert (K1 : keeps (rn_raft n) r1).
+  { destruct (negb (snap_index =? 0)); [eapply on_persist_snap_keeps; exact H1|].
+    injection H1 as <-. apply keeps_refl. }
+  assert (K2 : keeps r1 r2).
+  { destruct (negb (index =? 0)); [eapply on_persist_entries_keeps; exact H2|].
+    injection H2 as <-. apply keeps_refl. }
+  apply keeps_tv_plain. eapply keeps_trans; eassumption.
+Qed.
+
+Theorem rn_advance_append_tv n rd n' lr :
+  rn_advance_append n rd = Ok (n', lr) -> tv_plain (rn_raft n) (rn_raft n').
+Proof.
+  unfold rn_advance_append. intros H. ib H n1 H1. ib H n2 H2. ib H x Hx. destruct x as [n3 light].
+  dtop H; [discriminate|]. ib H y Hy. destruct y as [n4 ci].
+  dtop H; [discriminate|]. injection H as <- _.
+  apply commit_ready_tv in H1. apply rn_on_persist_ready_tv in H2. apply gen_light_ready_tv in Hx.
+  assert (E : rn_raft n4 = rn_raft n3).
+  { dtop Hy; [injection Hy as <- _; reflexivity|]. dtop Hy; [discriminate|].
+    injection Hy as <- _. reflexivity. }
+  rewrite E. eapply tv_plain_trans; [exact H1|]. eapply tv_plain_trans; eassumption.
+Qed.
+
+Theorem rn_advance_apply_to_tv n a n' :
+  rn_advance_apply_to n a = Ok n' -> tv_plain (rn_raft n) (rn_raft n').
+Proof.
+  unfold rn_advance_apply_to, lift, commit_apply. intros H. ib H y Hy. injection H as <-. cbn.
+  apply keeps_tv_plain. eapply commit_apply_internal_keeps; exact Hy.
+Qed.
+
+Theorem rn_advance_tv n rd n' lr :
+  rn_advance n rd = Ok (n', lr) -> tv_plain (rn_raft n) (rn_raft n').
+Proof.
+  unfold rn_advance. intros H. ib H x Hx. destruct x as [n1 l1]. ib H n2 H2. injection H as <- _.
+  apply rn_advance_append_tv in Hx. apply rn_advance_apply_to_tv in H2. cbn [fst] in H2.
+  eapply tv_plain_trans; eassumption.
+Qed.
+
+Lemma step_fst_plain n m n' :
+  m_type m <> MsgRequestVote ->
+  (x <- step (rn_raft n) m ;; Ok (n <| rn_raft := fst x |>)) = Ok n' ->
+  tv_plain (rn_raft n) (rn_raft n').
+Proof.
+  intros Hn H. ib H y Hy. injection H as <-. destruct y as [r1 c1]. cbn.
+  eapply step_tv_plain; eassumption.
+Qed.
+
+Theorem rn_request_snapshot_tv n n' c :
+  rn_request_snapshot n = Ok (n', c) -> tv_plain (rn_raft n) (rn_raft n').
+Proof.
+  unfold rn_request_snapshot, lift2. intros H. ib H y Hy. injection H as <- _. destruct y as [r1 c1]. cbn.
+  apply keeps_tv_plain. eapply request_snapshot_keeps; exact Hy.
+Qed.
+
+(* every call of the C07 alphabet *)
+Theorem exec_tv n o n' ot :
+  exec n o = Ok (n', ot) ->
+  match o with
+  | OStep m => vote_step m (rn_raft n) (rn_raft n')
+  | _ => tv_plain (rn_raft n) (rn_raft n')
+  end.
+Proof.
+  intros H. destruct o; cbn [exec] in H; unfold RaftProofsC07.quiet, quiet1 in H.
+  - ib H y Hy. injection H as <- _. destruct y. eapply rn_step_vote_step; exact Hy.
+  - ib H y Hy. injection H as <- _. destruct y. eapply rn_tick_tv; exact Hy.
+  - ib H y Hy. injection H as <- _. destruct y. eapply rn_campaign_tv; exact Hy.
+  - ib H y Hy. injection H as <- _. destruct y. eapply rn_propose_tv; exact Hy.
+  - ib H y Hy. injection H as <- _. destruct y. eapply rn_propose_conf_change_tv; exact Hy.
+  - ib H y Hy. injection H as <- _. destruct y. eapply rn_apply_conf_change_tv; exact Hy.
+  - ib H y Hy. injection H as <- _. eapply rn_ping_tv; exact Hy.
+  - ib H y Hy. injection H as <- _. destruct y. eapply rn_ready_tv; exact Hy.
+  - ib H y Hy. injection H as <- _. destruct y. eapply rn_advance_tv; exact Hy.
+  - ib H y Hy. injection H as <- _. destruct y. eapply rn_advance_append_tv; exact Hy.
+  - ib H y Hy. injection H as <- _. eapply commit_ready_tv; exact Hy.
+  - ib H y Hy. injection H as <- _. eapply rn_on_persist_ready_tv; exact Hy.
+  - ib H y Hy. injection H as <- _. eapply rn_advance_apply_to_tv; exact Hy.
+  - ib H y Hy. injection H as <- _. eapply rn_advance_apply_to_tv; exact Hy.
+  - ib H y Hy. injection H as <- _. eapply step_fst_plain; [|exact Hy]. discriminate.
+  - ib H y Hy. injection H as <- _. eapply step_fst_plain; [|exact Hy]. discriminate.
+  - ib H y Hy. injection H as <- _. destruct y. eapply rn_request_snapshot_tv; exact Hy.
+  - ib H y Hy. injection H as <- _. eapply step_fst_plain; [|exact Hy]. discriminate.
+  - ib H y Hy. injection H as <- _. eapply step_fst_plain; [|exact Hy]. discriminate.
+  - injection H as <- _. cbn. tvs.
+Qed.
+
+Corollary exec_tv_le n o n' ot : exec n o = Ok (n', ot) -> tv_le (rn_raft n) (rn_raft n').
+Proof.
+  intros H. apply exec_tv in H. destruct o;
+    first [eapply vote_step_tv_le; exact H
+          |eapply (vote_step_tv_le msg_default); apply tv_plain_vote_step; exact H].
+Qed.
+
+(* traces: any sequence of calls of the C07 alphabet that does not panic *)
+Inductive ntrace : rawnode -> rawnode -> Prop :=
+| ntrace_nil n : ntrace n n
+| ntrace_cons n o n1 ot n' : exec n o = Ok (n1, ot) -> ntrace n1 n' -> ntrace n n'.
+
+Theorem ntrace_tv_le n n' : ntrace n n' -> tv_le (rn_raft n) (rn_raft n').
+Proof.
+  induction 1 as [|n o n1 ot n' He R IH]; [apply tv_le_refl|].
+  eapply tv_le_trans; [eapply exec_tv_le; exact He|exact IH].
+Qed.
+
+Theorem ntrace_term_monotone n n' : ntrace n n' -> r_term (rn_raft n) <= r_term (rn_raft n').
+Proof. intros H. apply ntrace_tv_le in H. apply H. Qed.
+
+(* from construction on: along any trace the term never decreases, and two states of the
+   same term with non-zero votes have the same vote *)
+Theorem ntrace_one_vote_per_term n1 n2 :
+  ntrace n1 n2 -> r_term (rn_raft n2) = r_term (rn_raft n1) ->
+  r_vote (rn_raft n1) <> INVALID_ID -> r_vote (rn_raft n2) = r_vote (rn_raft n1).
+Proof.
+  intros H E Hv. apply ntrace_tv_le in H. destruct H as [_ H]. destruct (H E); [contradiction|assumption].
+Qed.
+
+Theorem ntrace_from_new c st sa dr n0 n1 n2 :
+  rn_new c st sa dr = Ok (inr n0) -> ntrace n0 n1 -> ntrace n1 n2 ->
+  r_term (rn_raft n0) <= r_term (rn_raft n1) /\ r_term (rn_raft n1) <= r_term (rn_raft n2) /\
+  (r_term (rn_raft n2) = r_term (rn_raft n1) -> r_vote (rn_raft n1) <> INVALID_ID ->
+   r_vote (rn_raft n2) = r_vote (rn_raft n1)).
+Proof.
+  intros _ H1 H2. split; [apply ntrace_term_monotone, H1|]. split; [apply ntrace_term_monotone, H2|].
+  apply ntrace_one_vote_per_term, H2.
+Qed.
